@@ -217,3 +217,6 @@ package messagequeue
 //@   loop 1 invariant buildersOK(mq)
 //@   loop 2 invariant buildersOK(mq)
 //@   loop 2 exit len(mq.builders) == 0
+//@ func MessageQueue.hasQueuedMessages
+//@   modifies nothing
+//@   ensures result == (len(mq.builders) > 0)
